@@ -110,22 +110,10 @@ def check(program: Program, run: Run) -> None:
     run.ob("C18/R1 labels name the units in the same order", "Interval.labels", ok, detail=f"{labels} vs {want_labels}")
     if not ok:
         run.finding("C18/labels-order:Interval.labels", f"Interval.labels {labels} do not correspond position by position to units {units}: the unit designator names the wrong fields", rule="R1")
-    zipcall = None
-    for n in ast.walk(init.node):
-        if isinstance(n, ast.For) and isinstance(n.iter, ast.Call) and isinstance(n.iter.func, ast.Name) and n.iter.func.id == "zip":
-            zipcall = n
-    vals = None
-    if zipcall is not None and len(zipcall.iter.args) == 3 and isinstance(zipcall.iter.args[2], (ast.List, ast.Tuple)):
-        vals = [ast.unparse(x) for x in zipcall.iter.args[2].elts]
-    if vals is None:
-        raise AnalysisError("unsupported construct: Interval.__init__ no longer stores its components in a `for unit, label, value in zip(units, labels, [...])` loop; "
-                            "the bookkeeping of largest / smallest / sign cannot be judged on another shape (it depends on which components are non-zero)")
-    ok = vals == units
-    run.ob("C18/R1 constructor value list is in unit order", "Interval.__init__", ok, detail=f"{vals}", where=init.loc())
-    if not ok:
-        run.finding("C18/constructor-order:Interval.__init__", f"the constructor zips units {units} with values {vals}: a component is stored under another unit", where=init.loc(), rule="R1")
-    # the values zipped with the units must be the constructor's own parameters, untouched: arithmetic between components
-    # (carries, float splitting) is value reasoning this check cannot do -- it refuses to decide rather than pass silently
+    # ---- the constructor's bookkeeping, decided by finite evaluation: every component is given one of {0, +m, -m}
+    # (distinct magnitudes per unit) and Interval.__init__ is evaluated by the symbolic evaluator in constructor mode
+    # (stores to self applied); the resulting fields are compared with what the property demands.  Exact for a
+    # constructor that only tests its parameters for truthiness / sign, which is checked first.
     pnames = {a.arg for a in init.node.args.args + init.node.args.kwonlyargs}
     recomputed = []
     for n in ast.walk(init.node):
@@ -138,41 +126,66 @@ def check(program: Program, run: Run) -> None:
             for x in ast.walk(t):
                 if isinstance(x, ast.Name) and x.id in pnames and x.id != init.params[0]:
                     recomputed.append((x.id, n.lineno))
-    run.ob("C18/R1 components reach the stored fields as supplied (no arithmetic between constructor parameters)", "Interval.__init__", not recomputed,
+    arith = [n for n in ast.walk(init.node) if isinstance(n, ast.BinOp) and any(isinstance(x, ast.Name) and x.id in units for x in ast.walk(n))] + \
+            [n for n in ast.walk(init.node) if isinstance(n, ast.Call) and isinstance(n.func, ast.Name) and n.func.id in ("divmod", "round", "sum", "pow")]
+    run.ob("C18/R1 components reach the stored fields as supplied (no arithmetic between constructor parameters)", "Interval.__init__", not (recomputed or arith),
            detail=f"{recomputed[:4]}", where=init.loc())
-    if recomputed:
-        raise AnalysisError(f"unsupported construct: Interval.__init__ recomputes its component parameters {sorted({r[0] for r in recomputed})} before storing them "
-                            f"(line {recomputed[0][1]}): whether the carry preserves the supplied values and their sign is arithmetic over runtime values, which this check does not decide")
-    # largest / smallest / sign bookkeeping inside the loop
-    if zipcall is not None and isinstance(zipcall.target, ast.Tuple) and len(zipcall.target.elts) == 3:
-        unit_v, label_v, value_v = [e.id if isinstance(e, ast.Name) else None for e in zipcall.target.elts]
-        selfn = init.params[0]
+    if recomputed or arith:
+        ln = recomputed[0][1] if recomputed else arith[0].lineno
+        raise AnalysisError(f"unsupported construct: Interval.__init__ computes with its component parameters {sorted({r[0] for r in recomputed})} before storing them "
+                            f"(line {ln}): whether the carry preserves the supplied values and their sign is arithmetic over runtime values, which this check does not decide")
+    import itertools as _it
+    from ..symex import Evaluator as _Ev2
+    mags = {u: 2 + i for i, u in enumerate(units)}
 
-        def is_self_attr(t, name):
-            return isinstance(t, ast.Attribute) and t.attr == name and isinstance(t.value, ast.Name) and t.value.id == selfn
+    def construct(kw):
+        ev = _Ev2(program)
+        ev.apply_writes = True
+        o = ev.self_obj(iv, {})
+        ev.call_method(o, "__init__", [], {k: Const(v) for k, v in kw.items()})
+        return o.attrs
 
-        first_nonzero = sign_first = smallest_last = abs_stored = False
-        for n in ast.walk(zipcall):
-            if isinstance(n, ast.If) and isinstance(n.test, ast.Compare) and is_self_attr(n.test.left, "largest") and isinstance(n.test.ops[0], ast.Is) \
-                    and isinstance(n.test.comparators[0], ast.Constant) and n.test.comparators[0].value is None:
-                for st in n.body:
-                    if isinstance(st, ast.Assign) and is_self_attr(st.targets[0], "largest") and isinstance(st.value, ast.Name) and st.value.id == label_v:
-                        first_nonzero = True
-                    if isinstance(st, ast.Assign) and is_self_attr(st.targets[0], "is_negative") and isinstance(st.value, ast.Compare) \
-                            and isinstance(st.value.ops[0], ast.Lt) and isinstance(st.value.comparators[0], ast.Constant) and st.value.comparators[0].value == 0:
-                        sign_first = True
-            if isinstance(n, ast.Assign) and is_self_attr(n.targets[0], "smallest") and isinstance(n.value, ast.Name) and n.value.id == label_v:
-                # must not be nested under the `largest is None` test
-                smallest_last = not any(isinstance(m, ast.If) and is_self_attr(getattr(m.test, "left", None), "largest") and any(x is n for x in ast.walk(m)) for m in ast.walk(zipcall))
-            if isinstance(n, ast.Call) and isinstance(n.func, ast.Name) and n.func.id == "setattr" and len(n.args) == 3 \
-                    and isinstance(n.args[1], ast.Name) and n.args[1].id == unit_v and isinstance(n.args[2], ast.Call) \
-                    and isinstance(n.args[2].func, ast.Name) and n.args[2].func.id == "abs":
-                abs_stored = True
-        ok = first_nonzero and sign_first and smallest_last and abs_stored
-        run.ob("C18/R1 largest=first, smallest=last non-zero component; sign from the first; magnitude stored", "Interval.__init__", ok,
-               detail=f"largest-first={first_nonzero} sign-with-first={sign_first} smallest-every-nonzero={smallest_last} magnitude={abs_stored}", where=init.loc())
-        if not ok:
-            run.finding("C18/bookkeeping:Interval.__init__", "largest/smallest/sign bookkeeping of the constructor changed (largest must be the first non-zero label, smallest the last, sign taken with the first, magnitudes stored)", where=init.loc(), rule="R1")
+    def patterns():
+        seen_p = set()
+        idx = list(range(len(units)))
+        combos = [()] + [(i,) for i in idx] + list(_it.combinations(idx, 2))
+        if run.tier == "thorough":
+            combos = [c_ for r in range(len(units) + 1) for c_ in _it.combinations(idx, r)]
+        else:
+            combos += [tuple(idx), (0, 3, 6), (1, 2, 4, 5)]
+        for c_ in combos:
+            for signs in _it.product((1, -1), repeat=len(c_)):
+                kw = {units[i]: sg * mags[units[i]] for i, sg in zip(c_, signs)}
+                key = tuple(sorted(kw.items()))
+                if key not in seen_p:
+                    seen_p.add(key)
+                    yield kw
+    npat = 0
+    bad_aspects = {}
+    for kw in patterns():
+        npat += 1
+        at = construct(kw)
+        nz = [(u, kw[u]) for u in units if kw.get(u)]
+        want = {"largest": labels[units.index(nz[0][0])] if nz else None, "smallest": labels[units.index(nz[-1][0])] if nz else None,
+                "is_negative": (nz[0][1] < 0) if nz else False}
+        for u in units:
+            got = at.get(u)
+            gv = got.value if isinstance(got, Const) else (0 if got is None else "?")
+            if gv != abs(kw.get(u, 0)):
+                bad_aspects.setdefault("component", (kw, f"{u} stored as {show(got) if got is not None else 'absent'}, supplied {kw.get(u, 0)}"))
+        for k_, w_ in want.items():
+            got = at.get(k_)
+            gv = got.value if isinstance(got, Const) else "?"
+            if gv != w_:
+                bad_aspects.setdefault({"is_negative": "sign"}.get(k_, k_), (kw, f"{k_} is {show(got) if got is not None else 'absent'}, must be {w_!r}"))
+    run.ob("C18/R1 constructor bookkeeping: magnitudes stored per unit, largest = first and smallest = last non-zero component, sign of the first", "Interval.__init__",
+           not bad_aspects, detail=f"{npat} sign patterns evaluated; failing aspects: {sorted(bad_aspects)}", where=init.loc())
+    for aspect, (kw, why) in sorted(bad_aspects.items()):
+        run.finding(f"C18/bookkeeping:Interval.__init__:{aspect}", f"Interval({', '.join(f'{k}={v}' for k, v in kw.items())}): {why} -- the literal built from these fields does not denote the supplied components",
+                    where=init.loc(), rule="R1")
+    run.analysed_ctor_patterns = npat
+    if npat < 90:
+        raise AnalysisError(f"instance count below floor: constructor sign patterns {npat}")
     # the literal must be a function of the object's own fields: no store to the instance, the class or a shared container
     # while rendering (a memo keyed by the magnitudes would hand one interval the sign or template of another)
     gsel = gs.params[0]
